@@ -110,6 +110,16 @@ def run_registry(acc, srv, key, n_ops):
                     acc.violation("after re-registering %s with %d decimals: %s" % (dn, newdec, "; ".join(probs[:3])),
                                   {"kind": "registry", "world_key": list(key), "step": step, "denom": dn})
             continue
+        elif r < 0.80:
+            kind, rr, padded = rw.admin_noise(rng, acc)
+            probs = []
+            keys = list(rw.order) if kind == "migrate_factory" else rng.sample(rw.order, min(len(rw.order), 8))
+            for k2 in keys:
+                probs += check_record(rw, acc, k2, rw.model[k2], {})
+            if probs:
+                acc.violation("after %s (%s): %s" % (kind, rr["r"], "; ".join(probs[:3])),
+                              {"kind": "registry", "world_key": list(key), "step": step, "admin": kind})
+            continue
         else:
             a0, a1 = rng.sample(A, 2)
             shape = "random"
@@ -223,7 +233,7 @@ def run_star(acc, srv, key):
 def run_shard(acc, prop, tier, seed, shard, nshards, **kw):
     srv = Server()
     try:
-        n = 9 if tier == "quick" else 1200
+        n = 11 if tier == "quick" else 1200
         for wi in range(n):
             from .. import core as _core
             if _core.skip_world(wi):
@@ -254,6 +264,9 @@ def floors(acc, tier):
     _w.need(acc, msgs, "creations_rejected", 800)
     _w.need(acc, msgs, "absent_lookups", 1000)
     _w.need(acc, msgs, "star_registries_over_30", 8)
+    _w.need(acc, msgs, "admin_noise_migrate_pair_ok", 40)
+    _w.need(acc, msgs, "admin_noise_owner_direct_update_err", 20)
+    _w.need(acc, msgs, "admin_noise_migrate_factory_ok", 20)
     for shape in ("family_split", "repeat", "identical", "bogus_token", "typed_identity", "case_variant", "random"):
         if not any(k.startswith(shape + "|") for k in acc.classes):
             msgs.append("shape %s never generated" % shape)
